@@ -322,6 +322,11 @@ func NewMultiBLSFromPublicKey(publicKey []byte) (MultiPublicKeyI, error) {
 	if len(mpk.PublicKeys) == 0 || len(mpk.Bitmap) == 0 || mpk.Threshold > uint32(len(mpk.PublicKeys)) {
 		return nil, errInvalidPK
 	}
+	// the bits of the bitmap beyond the last member must be zero: they are ignored by the signature verification and
+	// are not covered by what is signed, so they would let anyone re-encode the same key + signature in different bytes
+	if r := len(mpk.PublicKeys) % 8; r != 0 && len(mpk.Bitmap) == (len(mpk.PublicKeys)+7)/8 && mpk.Bitmap[len(mpk.Bitmap)-1]>>uint(r) != 0 {
+		return nil, errInvalidPK
+	}
 	var points []kyber.Point
 	seen := make(map[string]struct{}, len(mpk.PublicKeys))
 	// convert to a kyber.point
